@@ -63,4 +63,30 @@ def k8(drv):
     return 'rst' in r and '.. function:: helper(' not in r['rst']
 
 
-WITNESSES = {'K8': k8, 'K1': k1, 'K2': k2, 'K3': k3, 'K5': k5, 'K6': k6, 'K7': k7}
+def k9(drv):
+    """a run through main() creates the per-user configuration directory when it does not exist (confuse's config_dir()): a directory
+    created outside the output directory, with -o and in stdout mode alike"""
+    import os, io, contextlib, logging
+    with impl.Sandbox() as sb:
+        home = os.path.join(sb.dir, 'home'); os.makedirs(home)
+        src = sb.write('in/a.cmake', 'function(f)\nendfunction()\n')
+        old = {k: os.environ.get(k) for k in ('HOME', 'XDG_CONFIG_HOME', 'CMINXDIR')}; cwd = os.getcwd()
+        os.environ['HOME'] = home; os.environ['XDG_CONFIG_HOME'] = os.path.join(home, '.config'); os.environ.pop('CMINXDIR', None)
+        try:
+            os.chdir(sb.dir)
+            with contextlib.redirect_stdout(io.StringIO()), contextlib.redirect_stderr(io.StringIO()):
+                try: impl.cminx.main([os.path.dirname(src), '-o', os.path.join(sb.dir, 'out')])
+                except SystemExit: pass
+            return os.path.isdir(os.path.join(home, '.config', 'cminx'))
+        finally:
+            os.chdir(cwd)
+            for k, v in old.items():
+                if v is None: os.environ.pop(k, None)
+                else: os.environ[k] = v
+            logging.disable(logging.NOTSET)
+            for name in ('cminx', ''):
+                lg = logging.getLogger(name)
+                for h in lg.handlers[:]: lg.removeHandler(h)
+
+
+WITNESSES = {'K9': k9, 'K8': k8, 'K1': k1, 'K2': k2, 'K3': k3, 'K5': k5, 'K6': k6, 'K7': k7}
